@@ -219,17 +219,17 @@ def _row(shape):
 
 def v_auc(cfg, s):
     x, y = _row(s["x"]), _row(s["y"])
-    return x == y and len(x) == 2 and x[0] == cfg.get("n_tasks", 1)
+    return x == y and len(x) == 2 and x[0] == cfg.get("n_tasks", 1) and 0 not in x       # "at least 1 element" is documented (Raises)
 
 
 def v_auc_fn(cfg, s):
     x, y = _row(s["x"]), _row(s["y"])          # functional: each row its own curve
-    return x == y and len(x) == 2
+    return x == y and len(x) == 2 and 0 not in x
 
 
 def v_wasserstein(cfg, s):
     x, y = s["x"], s["y"]
-    return len(x) == 1 and len(y) == 1 and s.get("x_weights") in (None, x) and s.get("y_weights") in (None, y)
+    return len(x) == 1 and len(y) == 1 and 0 not in x + y and s.get("x_weights") in (None, x) and s.get("y_weights") in (None, y)   # a distribution needs an observation
 
 
 def v_text(cfg, s):
